@@ -96,7 +96,7 @@ class Check(PropertyCheck):
                      "filter_style": rng.choice(["callable", "enum", "str"])})
         return Scenario(lines, meta)
 
-    def multi_scenario(self, rng):
+    def multi_scenario(self, rng, inject=0.12):
         j1 = rng.randint(1, 3)
         j2 = j1 + rng.randint(0, 2)
         m1 = rng.randint(1, 3)
@@ -126,7 +126,7 @@ class Check(PropertyCheck):
         for ep in range(rng.randint(5, 10) if many else rng.randint(1, 3)):
             lines.append("mreset")
             for _ in range(rng.randint(0, 3) if many and rng.random() < 0.7 else rng.randint(0, j2 * m2)):
-                if rng.random() < 0.12:
+                if rng.random() < inject:
                     # an illegal decision (unknown / finished job, ineligible machine, a machine id that exists only in the
                     # padded action space): must raise and change nothing
                     lines += ["mark injected", f"mbad {rng.randint(0, 200)} {m2 + 1}"]
@@ -215,7 +215,7 @@ class Check(PropertyCheck):
             if env is None:
                 return res
         elif cmd == "mbad":
-            if not out.endswith("raise"):
+            if out.startswith("bad ") and not out.endswith("raise"):
                 res.append(("not-rejected", f"`{line}`: the illegal decision {out.split()[1:3]} was accepted"))
             return res
         elif cmd in ("mreset", "mstep", "mauto"):
